@@ -53,7 +53,9 @@ Populate(impl) == <<
     Op("Set", 1, "", "b", V(1), "", NoDef, FALSE), Op("Set", 1, "", "q", V(1), "", NoDef, FALSE),
     Op("Set", 1, "", "o", Ids(<<"a">>), "", NoDef, FALSE), Op("Set", 1, "", "m", Ids(<<"c", "b", "a">>), "", NoDef, FALSE),
     Op("SetID", 1, "", "", V(0), "i1", NoDef, FALSE) >>
-Seeds == { <<>>, Populate("soft"), Populate("wrap"),
+\* a soft resource whose type has no field at all, and its copy
+Fieldless == << NewOf("soft", "rt0", <<>>), Op("Copy", 1, "", "", V(0), "", NoDef, FALSE) >>
+Seeds == { <<>>, Populate("soft"), Populate("wrap"), Fieldless,
            Populate("soft") \o <<Op("Copy", 1, "", "", V(0), "", NoDef, FALSE)>>,
            Populate("wrap") \o <<Op("Copy", 1, "", "", V(0), "", NoDef, FALSE)>> }
 
